@@ -65,11 +65,11 @@ class Static(BaseComponent):
         else:
             location = os.path.abspath(os.path.join(self.docroot, '.'))
 
+        if location != self.docroot and not location.startswith(os.path.join(self.docroot, '')):
+            return None  # hacking attempt e.g. /foo/../../../../../etc/shadow
+
         if not os.path.exists(location):
             return None
-
-        if not location.startswith(os.path.dirname(self.docroot)):
-            return None  # hacking attempt e.g. /foo/../../../../../etc/shadow
 
         # Is it a file we can serve directly?
         if os.path.isfile(location):
